@@ -325,6 +325,10 @@ def lean_grep_forbidden(prop=None):
 def props_theorems(prop):
     """Names of the theorems in Props/<prop>.lean (fully qualified)."""
     f = os.path.join(LEAN, "Mustache", "Props", prop + ".lean")
+    return _theorems_of(f)
+
+
+def _theorems_of(f):
     if not os.path.exists(f):
         return []
     s = strip_lean_comments(open(f).read())
@@ -345,28 +349,33 @@ def props_theorems(prop):
     return names
 
 
-def lean_audit(prop, leanchecker=False):
+def lean_audit(prop, leanchecker=False, extra=()):
     """Build Props/<prop>, print axioms of every theorem there, grep forbidden tokens.
     Returns dict(ok, obligations, discharged, axioms{thm:[..]}, problems[..])."""
     res = {"ok": True, "obligations": 0, "discharged": 0, "axioms": {}, "problems": [], "theorems": []}
     mod = "Mustache.Props." + prop
-    ok, out = lean_build([mod, "driver"])
+    extra_mods = ["Mustache.Props." + x for x in extra]
+    ok, out = lean_build([mod, "driver"] + extra_mods)
     if not ok:
         res["ok"] = False
         res["problems"].append("lake build %s failed:\n%s" % (mod, out[-3000:]))
         return res
     hits = lean_grep_forbidden(prop)
+    for x in extra:
+        hits += [h for h in lean_grep_forbidden(x) if h not in hits]
     if hits:
         res["ok"] = False
         res["problems"].append("forbidden tokens: %r" % (hits[:10],))
     thms = props_theorems(prop)
+    for x in extra:
+        thms += props_theorems(x)
     res["theorems"] = thms
     res["obligations"] = len(thms)
     if not thms:
         res["ok"] = False
         res["problems"].append("no theorems in Props/%s.lean" % prop)
         return res
-    src = "import %s\n" % mod + "".join("#print axioms %s\n" % t for t in thms)
+    src = "import %s\n" % mod + "".join("import %s\n" % m for m in extra_mods) + "".join("#print axioms %s\n" % t for t in thms)
     tmp = os.path.join(CACHE, "audit_%s_%d.lean" % (prop, os.getpid()))
     os.makedirs(CACHE, exist_ok=True)
     with open(tmp, "w") as f:
@@ -398,11 +407,12 @@ def lean_audit(prop, leanchecker=False):
         else:
             res["discharged"] += 1
     if leanchecker:
-        rc, out, err = run(["lake", "env", "leanchecker", mod], cwd=LEAN, timeout=1800)
-        res["leanchecker"] = "ok" if rc == 0 else (out + err)[-1500:]
-        if rc != 0:
-            res["ok"] = False
-            res["problems"].append("leanchecker rejected " + mod)
+        for m in [mod] + extra_mods:
+            rc, out, err = run(["lake", "env", "leanchecker", m], cwd=LEAN, timeout=1800)
+            res["leanchecker"] = "ok" if rc == 0 else (out + err)[-1500:]
+            if rc != 0:
+                res["ok"] = False
+                res["problems"].append("leanchecker rejected " + m)
     return res
 
 
